@@ -163,6 +163,15 @@ func (r *rig) mayInject() bool {
 	if w.eventInBusy {
 		return false
 	}
+	// a handler chains calls (current epoch, then next epoch) before it returns to its select: with a
+	// slow-call fault still armed the chain could outlast the next tick and the handler would then find
+	// the tick AND the queued event ready - Go picks one at random (seen once under heavy load as a
+	// determinism mismatch of the thorough tier)
+	for fam := 0; fam < nFam; fam++ {
+		if w.armSlow[fam] != 0 {
+			return false
+		}
+	}
 	next := w.slotStart(w.curSlot() + 1)
 	for fam := 0; fam < nFam; fam++ {
 		for _, f := range w.fetches[fam] {
